@@ -35,8 +35,9 @@ def build_store(kind):
                                appinfo=[('ns', 'd0'), ('ns', 'd1')], sensitive=False)
         if kind != 'OpaqueObject' or i == 1:
             pass
-        pie = W.KINDS[kind]() if i == 0 else W.pie_symmetric(b'\x77' * 16)
-        if not (kind == 'OpaqueObject' and i == 0):
+        base_kind = kind.split(':')[0]
+        pie = W.KINDS[base_kind]() if i == 0 else W.pie_symmetric(b'\x77' * 16)
+        if not ((kind == 'OpaqueObject' or kind.endswith(':nomask')) and i == 0):
             attrs.append(W.attr(AT.CRYPTOGRAPHIC_USAGE_MASK, [CUM.ENCRYPT]))
         r = w.do((1, 4), W.p_register(pie, attrs))
         assert r.items[0].ok(), r.brief()
@@ -385,7 +386,7 @@ def run(tier, seed):
     n = 32
     for i in range(n):
         tasks.append(('SymmetricKey', main_depth, ACTIONS[i::n]))
-    for k in KINDS[1:]:
+    for k in KINDS[1:] + ['SymmetricKey:nomask', 'SecretData:nomask']:
         d = 1 if tier == 'quick' else 2
         for i in range(4):
             tasks.append((k, d, ACTIONS[i::4]))
